@@ -213,7 +213,7 @@ func H_C11_bus() {
 // H_C11_api: two unserialised callers (the /rebalance endpoint checks IsOpen and calls Rebalance).
 func H_C11_api() {
 	setMerge(true)
-	setPreempt(0) // with the plain-field scheduling points below, one extra pre-emption exceeds 2*10^6 paths (measured): both tiers explore every order at blocking points and at those field accesses
+	setPreempt(0) // one pre-emption on top of the plain-field scheduling points below exceeds 2*10^6 paths (measured): both tiers explore every order at blocking points
 	sharedFields("balancing", "rebalanceTimer", "open")
 	c := vC11Setup(false)
 	fx := c.fx
